@@ -46,9 +46,21 @@ Proof. exact row_length. Qed.
 Print Assumptions C19_row_width.
 
 (** an empty result prints No data; on a terminal at most height-1 lines are printed *)
-Theorem C19_empty : forall st cols, format_aggregate st (mkT cols []) = Ok (st, lit "No data" ++ [10%N]).
+Theorem C19_empty : forall st cols,
+  format_aggregate st (mkT cols []) = Ok (st, firstn (max_width st) (lit "No data") ++ [10%N]).
 Proof. exact empty_table. Qed.
 Print Assumptions C19_empty.
+
+(** that is `No data` in full on every terminal of at least 7 columns and without a terminal, and it
+    never exceeds the terminal width (it wrapped on narrower ones before fix 7856f06) *)
+Theorem C19_empty_full : forall st cols, 7 <= max_width st ->
+  format_aggregate st (mkT cols []) = Ok (st, lit "No data" ++ [10%N]).
+Proof. exact empty_table_wide. Qed.
+Print Assumptions C19_empty_full.
+
+Theorem C19_empty_fits : forall st, length (firstn (max_width st) (lit "No data")) <= max_width st.
+Proof. exact empty_table_fits. Qed.
+Print Assumptions C19_empty_fits.
 
 Theorem C19_height_clip : forall ws w h t st' txt,
   format_aggregate (mkPP ws (Some (w, h))) t = Ok (st', txt) -> t_rows t <> [] ->
